@@ -117,8 +117,8 @@ func generate(h *hist, r *lib.Rand, idx int) {
 	if idx%7 == 3 {
 		n = 3 + r.Pick(3)
 	}
-	// the property's range: up to 100 oracles, stakes at the delegate bounds (thorough: every 5th history; quick: one)
-	bigSet := (tier() == "thorough" && idx%5 == 1) || (tier() != "thorough" && idx == 5)
+	// the property's range: up to 100 oracles, stakes at the delegate bounds (thorough: every 12th history; quick: one)
+	bigSet := (tier() == "thorough" && idx%12 == 1) || (tier() != "thorough" && idx == 5)
 	if bigSet {
 		n = 50 + r.Pick(51)
 		if tier() != "thorough" {
@@ -172,7 +172,7 @@ func generate(h *hist, r *lib.Rand, idx int) {
 	if bigSet {
 		nOps = 450
 		if tier() == "thorough" {
-			nOps = 900
+			nOps = 600
 		}
 	}
 	inList := func(l []int, v int) bool {
